@@ -436,11 +436,19 @@ func runC16(c *Ctx) error {
 			case 4: // ten-byte varint with top byte 1 is fine
 				buf = append([]byte{3, 4, 2}, 1)
 				buf = append(buf, bytes.Repeat([]byte{0xff}, 9)...)
-				buf = append(buf, 1, 'k', 'k', 'v', 0, 0, 0, 0)
+				buf = append(buf, 1, 'k', 'k', 'v')
+				if c.Rng.Intn(3) > 0 { // with the right checksum the record is accepted (expiry 2^64-1)
+					buf = binary.BigEndian.AppendUint32(buf, crc32.Checksum(buf, castagnoli))
+				} else {
+					buf = append(buf, 0, 0, 0, 0)
+				}
 			case 5: // valid record cut anywhere
 				r := c.plainRec(c.u64())
 				enc, _, _ := badger.VerifLogEncodeEntry(r.Key, r.Val, r.Meta, r.Umeta, r.Exp, 20, nil, nil)
 				buf = enc[:c.Rng.Intn(len(enc)+1)]
+				if c.Rng.Intn(3) == 0 {
+					buf = append(append([]byte{}, enc...), c.rawBytes(5)...)
+				}
 			case 6: // zeros
 				buf = make([]byte, c.Rng.Intn(12))
 			case 7: // moderately large vlen, short input
